@@ -46,7 +46,7 @@ REAL_VS_STUB = {"real": ["sdeint, BaseSDESolver.integrate (adaptive loop), adapt
 PROBES = ("trials", "accepted", "rejected", "rejection_at_dt_min", "ge5_consecutive_rejections", "step_at_dt_min",
           "accepted_with_err_gt_1_at_dt_min", "final_step_clipped", "final_step_le_4ulp", "value_model_trials",
           "err_recomputed", "outputs_checked", "conf_real", "conf_adv", "real_bm", "stub_bm", "f32", "stiff",
-          "err_hugging_1", "scheme_diverged", "via_sdeint_adjoint")
+          "err_hugging_1", "via_sdeint_adjoint")  # (scheme_diverged is counted too; it is zero in most batches)
 STATE_MEASURE = "distinct accept/reject words (one letter per trial) together with (solver, noise type)"
 
 
